@@ -83,7 +83,7 @@ use fuel_tx::{
     GasCosts,
     Input,
     Output,
-    Policies,
+    policies::Policies,
     PredicateParameters,
     Script,
     Transaction,
@@ -1516,7 +1516,6 @@ fn sched_eval(roles: &[u8], env: &Env, ctx: &Ctx, acc: &mut Acc) {
         );
     }
     acc.cnt("sched_transactions", 1);
-    acc.cnt("sched_distinct_outcomes_per_tx_max", 0);
     acc.out(format!("sched:distinct-outcomes-per-tx={}", distinct.len()));
     if seq.is_ok() {
         acc.fps.insert(vcore::run::hash64(&("sched", roles)));
